@@ -72,7 +72,7 @@ EvalSeq(st, ss) == IF ss = << >> \/ ~OK(st) THEN st ELSE EvalSeq(EvalStmt(st, He
 (* counted loop: i from `i` while i # stop, step `step`; the loop variable is pushed on st.lv *)
 Iterate(st, i, stop, step, body) ==
   IF ~OK(st) \/ i = stop THEN st
-  ELSE IF Len(st.glog) > 400 THEN Fault(st, "diverges")
+  ELSE IF (stop - i) \div step > MaxIter THEN Fault(st, "diverges")
   ELSE LET s1 == EvalSeq([st EXCEPT !.lv = Append(@, i)], body)
        IN  Iterate([s1 EXCEPT !.lv = st.lv], i + step, stop, step, body)
 
